@@ -51,38 +51,48 @@ fn run(cx: &mut Cx, mode: Mode) {
     let issuer = cx.node("issuer");
     let holder = cx.node("holder");
     let verifier = cx.node("verifier");
-    // workload
-    let enumerated = mode == Mode::Complete && cx.run_index < 642 || mode == Mode::Sound;
-    let (suite, l, m, dmask, dcmask) = if enumerated {
-        // stride 37 is coprime to 642: any 642 consecutive runs enumerate every combination, and a
-        // short batch still sees a spread of shapes
-        let k = cx.ch.forced("small_combo", 642, cx.run_index.wrapping_mul(37));
-        let (l, m, a, b) = small_combo(k);
-        (Suite::from_idx(k / 321), l, m, Some(a), Some(b))
-    } else {
-        let s = gen_suite(cx);
-        (s, gen_count(cx, "L", true).min(40), gen_count(cx, "M", true).min(40), None, None)
-    };
-    let msgs_v: Vec<Bytes> = (0..l).map(|i| gen_message(cx, 1000 + i as u64)).collect();
-    let cm_v: Vec<Bytes> = (0..m).map(|i| gen_message(cx, 2000 + i as u64)).collect();
-    let with_commitment = m > 0 || cx.ch.chance("commit_to_nothing", 1, 2);
-    let didx: Vec<usize> = match dmask { Some(a) => (0..l).filter(|i| a >> i & 1 == 1).collect(), None => crate::scen_proof::gen_disclosure(cx, l, 1) };
-    let dcidx: Vec<usize> = match dcmask { Some(b) => (0..m).filter(|i| b >> i & 1 == 1).collect(), None => crate::scen_proof::gen_disclosure(cx, m, 2) };
+    // key and header are shared by the sessions of a run (a holder presenting several credentials
+    // of one issuer); shapes differ
     let header = gen_octets(cx, "header", 1);
-    let ph = gen_octets(cx, "ph", 2);
     let (ikm, info) = gen_key_material(cx, 0);
-    let msgs = as_optlist(cx, msgs_v);
-    let committed = as_optlist(cx, cm_v);
-    cx.log(format!("session: suite={} L={l} M={m} commit={with_commitment} D={didx:?} DC={dcidx:?} header={} ph={}", suite.name(), opt_s(&header), opt_s(&ph)));
-    cx.cell(format!("shape|{}|L{}|M{}|c{}", suite.name(), l.min(6), m.min(6), with_commitment as u8));
-    if l == 0 { cx.count("probe.L=0"); }
-    if m == 0 { cx.count("probe.M=0"); }
-    if !with_commitment { cx.count("probe.issued_without_commitment"); }
-    cx.step(issuer, "keygen", StepOpts::default(), move || api::keygen(suite, &ikm, info.as_deref(), None), move |cx, st| {
-        let Ok(Ok((sk, pk))) = st.out else { cx.log("keygen failed (C01's business)".into()); return; };
-        let s = Sess { suite, sk, pk, header, ph, msgs, committed, with_commitment, didx, dcidx };
-        request(cx, mode, s, issuer, holder, verifier, ideal);
-    });
+    let n_sessions = if mode == Mode::Complete { 1 + cx.ch.choose("sessions", 2) } else { 1 };
+    let mut specs = Vec::new();
+    for s in 0..n_sessions {
+        // workload: stride 37 is coprime to 642, so any 642 consecutive runs enumerate every
+        // combination and a short batch still sees a spread of shapes
+        let enumerated = mode == Mode::Complete && cx.run_index < 642 && s == 0 || mode == Mode::Sound;
+        let (suite, l, m, dmask, dcmask) = if enumerated {
+            let k = cx.ch.forced("small_combo", 642, cx.run_index.wrapping_mul(37));
+            let (l, m, a, b) = small_combo(k);
+            (Suite::from_idx(k / 321), l, m, Some(a), Some(b))
+        } else {
+            let su = gen_suite(cx);
+            (su, gen_count(cx, "L", true).min(40), gen_count(cx, "M", true).min(40), None, None)
+        };
+        let msgs_v: Vec<Bytes> = (0..l).map(|i| gen_message(cx, 1000 * (s + 1) + i as u64)).collect();
+        let cm_v: Vec<Bytes> = (0..m).map(|i| gen_message(cx, 2000 * (s + 1) + i as u64)).collect();
+        let with_commitment = m > 0 || cx.ch.chance("commit_to_nothing", 1, 2);
+        let didx: Vec<usize> = match dmask { Some(a) => (0..l).filter(|i| a >> i & 1 == 1).collect(), None => crate::scen_proof::gen_disclosure(cx, l, 1) };
+        let dcidx: Vec<usize> = match dcmask { Some(b) => (0..m).filter(|i| b >> i & 1 == 1).collect(), None => crate::scen_proof::gen_disclosure(cx, m, 2) };
+        let ph = gen_octets(cx, "ph", 2 + s);
+        let msgs = as_optlist(cx, msgs_v);
+        let committed = as_optlist(cx, cm_v);
+        cx.log(format!("session {s}: suite={} L={l} M={m} commit={with_commitment} D={didx:?} DC={dcidx:?} header={} ph={}", suite.name(), opt_s(&header), opt_s(&ph)));
+        cx.cell(format!("shape|{}|L{}|M{}|c{}", suite.name(), l.min(6), m.min(6), with_commitment as u8));
+        if l == 0 { cx.count("probe.L=0"); }
+        if m == 0 { cx.count("probe.M=0"); }
+        if !with_commitment { cx.count("probe.issued_without_commitment"); }
+        specs.push((suite, ph, msgs, committed, with_commitment, didx, dcidx));
+    }
+    if n_sessions > 1 { cx.count("probe.two_sessions_same_key_and_header"); }
+    for (suite, ph, msgs, committed, with_commitment, didx, dcidx) in specs {
+        let (ikm, info, header, ideal) = (ikm.clone(), info.clone(), header.clone(), ideal.clone());
+        cx.step(issuer, "keygen", StepOpts::default(), move || api::keygen(suite, &ikm, info.as_deref(), None), move |cx, st| {
+            let Ok(Ok((sk, pk))) = st.out else { cx.log("keygen failed (C01's business)".into()); return; };
+            let s = Sess { suite, sk, pk, header, ph, msgs, committed, with_commitment, didx, dcidx };
+            request(cx, mode, s, issuer, holder, verifier, ideal);
+        });
+    }
     cx.run();
 }
 
@@ -294,6 +304,22 @@ fn bad_presentations(cx: &mut Cx, f: BlindPres, l: usize, m: usize, verifier: No
                 *tgt = Some(v);
                 deliver_pres(cx, verifier, g, format!("{}_int_corrupt", if which == 0 { "didx" } else { "dcidx" }), ideal.clone());
             }
+        }
+    }
+    // a second, different message claimed for an already disclosed index (both lists, after and
+    // before the genuine pair)
+    for which in 0..2u8 {
+        let n = if which == 0 { inorm(&f.didx).len() } else { inorm(&f.dcidx).len() };
+        if n == 0 { continue; }
+        let i = cx.ch.choose("pair_conflict", n as u64) as usize;
+        for before in [false, true] {
+            let mut g = f.clone();
+            let (ti, tm) = if which == 0 { (&mut g.didx, &mut g.dmsgs) } else { (&mut g.dcidx, &mut g.dcmsgs) };
+            let (mut a, mut b) = (ti.take().unwrap(), tm.take().unwrap());
+            let forged = bytes_for(cx.run_seed, b"conflict", which as u64, 6);
+            if before { a.insert(i, a[i]); b.insert(i, forged); } else { a.insert(i + 1, a[i]); b.insert(i + 1, forged); }
+            *ti = Some(a); *tm = Some(b);
+            deliver_pres(cx, verifier, g, format!("{}_pair_conflicting_duplicate:{}", if which == 0 { "signer" } else { "committed" }, if before { "before" } else { "after" }), ideal.clone());
         }
     }
     // a disclosed signer message presented as a disclosed committed message and vice versa
